@@ -84,6 +84,14 @@ func canonCondWith(e ast.Expr, neg bool, leaf func(ast.Expr) string) string {
 				wantTrue := (rs == "true") == (op == token.EQL)
 				return canonCondWith(stripParens(l), !wantTrue, leaf)
 			}
+			// the empty string: s == ""  →  len(s)==0,  s != ""  →  len(s)>0
+			if rs == `""` && (op == token.EQL || op == token.NEQ) {
+				ls = "len(" + ls + ")"
+				if op == token.EQL {
+					return ls + "==0"
+				}
+				return ls + ">0"
+			}
 			if strings.HasPrefix(ls, "len(") && strings.HasSuffix(ls, ")") {
 				switch {
 				case (op == token.NEQ && rs == "0") || (op == token.GEQ && rs == "1"):
